@@ -275,6 +275,32 @@ def finish_cases(cases):
     return cases
 
 
+ASAN = {'ASAN_OPTIONS': 'detect_leaks=0:abort_on_error=0:halt_on_error=1:allocator_may_return_null=1:quarantine_size_mb=16'}
+
+
+def pdrive(args, behaviours, work, tag, timeout, jobs):
+    """progfam.pdrive with a bounded ASan quarantine (the default 256 MB quarantine makes every one of the
+    ~10^6 short-lived triangulator allocations touch fresh pages: 6x slower)"""
+    n = len(behaviours)
+    jobs = max(1, min(jobs, (n + 199) // 200))
+    size = (n + jobs - 1) // jobs
+
+    def one(j):
+        lo = j * size
+        inp = '%s/beh%s.%d.ndjson' % (work, tag, j)
+        out = '%s/res%s.%d.ndjson' % (work, tag, j)
+        vf.write_ndjson(inp, behaviours[lo:lo + size])
+        res, cr = vf.drive('seq', args, inp, out, timeout=timeout, env=ASAN)
+        return ({lo + i: r for i, r in res.items()}, [(lo + i, rc, t) for (i, rc, t) in cr])
+    results, crashes = {}, []
+    with ThreadPoolExecutor(max_workers=jobs) as ex:
+        for res, cr in ex.map(one, range(jobs)):
+            for i, r in res.items():
+                r['i'] = i
+            results.update(res); crashes += cr
+    return results, crashes
+
+
 def run_driver(chk, cases, opts, tag, jobs=12, timeout=3000):
     work = '%s/work/%s' % (vf.BUILD, PID)
     os.makedirs(work, exist_ok=True)
@@ -282,7 +308,7 @@ def run_driver(chk, cases, opts, tag, jobs=12, timeout=3000):
         os.remove(f)
     behs = [json.dumps(c) for c in cases]
     args = ['poly'] + opts
-    results, crashes = progfam.pdrive('seq', args, behs, work, tag, timeout, jobs)
+    results, crashes = pdrive(args, behs, work, tag, timeout, jobs)
     recs = []
     for f in sorted(glob.glob('%s/res%s.*.rec*' % (work, tag))):
         recs += vf.read_ndjson(f)
@@ -296,7 +322,7 @@ def confirm(cs, views, args):
     if views:
         one['views'] = views
     vf.write_ndjson(work + '/confirm.ndjson', [json.dumps(one)])
-    res, cr = vf.drive('seq', [a for a in args if a != '--record'], work + '/confirm.ndjson', work + '/confirm.res', timeout=300)
+    res, cr = vf.drive('seq', [a for a in args if a != '--record'], work + '/confirm.ndjson', work + '/confirm.res', timeout=300, env=ASAN)
     return one, res.get(0), cr
 
 
